@@ -201,6 +201,7 @@ PROPS = {
                       "(same arguments => the instance created the first time, loaded once).",
         "units": [K("template.py::BaseTemplateFile.cook_check"), K("loader.py::TemplateLoader.load"),
                   K("loader.py::cache.load"), K("zpt/template.py::Macros.__getitem__"),
+                  K("zpt/loader.py::TemplateLoader.load"),
                   U('pyvc.frames', 'search_path_frame', 'search_path_frame'),
                   U('pyvc.frames', 'render_write_frame', 'render.write_frame'),
                   U('pyvc.frames', 'cook_drops_stale', 'cook.drops_stale_functions')],
@@ -275,7 +276,7 @@ PROPS = {
                       "side condition is checked on the AST), A-DECODE (decode returns str), A-TRANSLATE "
                       "(translate returns its argument, a str or None), re search semantics for the "
                       "5-character class. Not yet decided: the sinks (K3) and the choice of quote entity.",
-        "units": K2Q,
+        "units": K2Q + [K("zpt/loader.py::TemplateLoader.load"), K("loader.py::cache.load")],
         "not_decided": ["sinks: which quote/entity each emitted call site passes (pending K3)",
                         "'same elements and attributes as for a harmless value' follows from G1-G3 by "
                         "a context argument that is not machine-checked"],
